@@ -25,7 +25,7 @@ type c11Case struct {
 	Type     string     `json:"type"`
 	FrontEnd string     `json:"front_end"`
 	Scenario int        `json:"scenario"`
-	Variant  string     `json:"variant"` // healthy | marker-absent | wrong-hostname | unknown-interface | not-configured
+	Variant  string     `json:"variant"` // healthy | marker-absent | wrong-hostname | unknown-interface | not-configured | spelling:<verb or flag>
 	Fault    *sim.Fault `json:"fault,omitempty"`
 }
 
@@ -56,6 +56,9 @@ func buildC11(c *c11Case) *liveCase {
 	}
 	lc := buildC06(cc)
 	lc.Compare = true
+	if sp, ok := strings.CutPrefix(c.Variant, "spelling:"); ok {
+		lc.Spelling = sp
+	}
 	if c.Variant == "unknown-interface" && lc.Cli != nil {
 		lc.Cli.Config = strings.ReplaceAll(lc.Cli.Config, "nameif inside", "nameif dmz")
 		lc.Cli.Config = strings.ReplaceAll(lc.Cli.Config, "interface Ethernet1\n", "interface Ethernet7\n")
@@ -79,7 +82,7 @@ func checkC11(tier, replay string) int {
 	env.BuildRepo(true)
 	rep := ev.New(env, "fault_enumeration")
 	rep.Rule = "Compare runs for {asa, ios, linux, panos, nsx} x {drc -C, do-approve compare} x 3 scenarios with non-empty differences x " +
-		"variant {healthy, marker absent, wrong hostname, unknown interface, banner not configured} without fault, and for the healthy variant " +
+		"variant {healthy, marker absent, wrong hostname, unknown interface, banner not configured, other spellings of the compare verb/flag (Compare, COMPARE, --compare, -qC, --compare=true)} without fault, and for the healthy variant " +
 		"a fault of kind {error text, unexpected output, connection close, wrong echo, stall | HTTP 500, 403, close, malformed body, status=error, stall} " +
 		"at every ordinal position of the dialogue of the reference run. Oracle: zero config-change and zero save/commit events in the simulator transcript " +
 		"(ASA 'terminal width 511' is a session setting). Non-trivial = the reference compare of the scenario reports differences; distinct = distinct (case, fault). " +
@@ -138,6 +141,16 @@ func checkC11(tier, replay string) int {
 					continue
 				}
 				cases = append(cases, &c11Case{Type: k.typ, FrontEnd: k.fe, Scenario: k.sc, Variant: v})
+			}
+			// Other spellings of the request for a compare: whatever the
+			// tool makes of them (usage error or compare), it must not
+			// change the device.
+			spellings := []string{"--compare", "-qC", "--compare=true"}
+			if k.fe == "do-approve" {
+				spellings = []string{"Compare", "COMPARE", "compare "}
+			}
+			for _, sp := range spellings {
+				cases = append(cases, &c11Case{Type: k.typ, FrontEnd: k.fe, Scenario: k.sc, Variant: "spelling:" + sp})
 			}
 			for ord := 1; ord <= steps[i]; ord++ {
 				for _, kind := range faultKinds(k.typ) {
